@@ -1,7 +1,7 @@
 """Recording of kernpy's pitch code (shared by C09, C10, C16)."""
 from __future__ import annotations
 
-from ..common import cps
+from ..common import cps, fresh
 
 LETTERS = 'CDEFGAB'
 QUALS_P = ['dd', 'd', 'P', 'A', 'AA']
@@ -51,17 +51,17 @@ def record_transpose():
                 s = spell(l, a, o)
                 for iv in names:
                     for up in (True, False):
-                        d = 'up' if up else 'down'
+                        d = fresh('up' if up else 'down') if (l + a + o) % 2 else ('up' if up else 'down')
                         ok, out = safe(kp.transpose, s, tr.IntervalsByName[iv], direction=d)
                         if ok:
-                            bok, back = safe(kp.transpose, out, tr.IntervalsByName[iv], direction='down' if up else 'up')
+                            bok, back = safe(kp.transpose, out, tr.IntervalsByName[iv], direction=fresh('down' if up else 'up'))
                         else:
                             bok, back = False, ''
                         recs.append({'op': 'transpose', 'l': l, 'a': a, 'o': o, 'iv': iv, 'up': up, 'inp': cps(s),
                                      'ok': ok, 'out': txt(ok, out), 'exc': '' if ok else out,
                                      'backok': bok, 'back': txt(bok, back)})
                 for up in (True, False):
-                    d = 'up' if up else 'down'
+                    d = fresh('up' if up else 'down')
                     ok4, o4 = safe(kp.transpose, s, tr.IntervalsByName['P4'], direction=d)
                     ok45, o45 = safe(kp.transpose, o4, tr.IntervalsByName['P5'], direction=d) if ok4 else (False, '')
                     ok8, o8 = safe(kp.transpose, s, tr.IntervalsByName['octave'], direction=d)
@@ -169,7 +169,7 @@ def replay_object_history(hist):
             elif h['op'] == 'transpose':
                 iv, up = h['args']
                 r.update(iv=iv, up=bool(up))
-                ok, q = safe(tr.transpose_agnostics, obj, tr.IntervalsByName[iv], direction='up' if up else 'down')
+                ok, q = safe(tr.transpose_agnostics, obj, tr.IntervalsByName[iv], direction=fresh('up' if up else 'down'))
                 r['ok'] = ok
                 if ok:
                     r.update(rname=str(q.name), roct=int(q.octave))
